@@ -18,7 +18,8 @@
 //!   after the last action every timer is polled once more (cmd: `p0 … pn-1`; core/legacy: one no-op event).
 //! out  : `ids:<ok|dup|unordered> <record>*`, one record per action (+ the final polls), a record is a comma separated list
 //!     `<res>[,+<after|at|clear>:<timer>]*[,!<completed|cleared|elapsed|arrived>:<tag>[:<timer>]]*[,done|,live]`
-//!   res: `-` performed, `ok`/`err` result of a resolve, `na` nothing to act on, `panic` the call panicked, `dead` after a panic.
+//!   res: `-` performed, `ok`/`err` result of a resolve, `na` nothing to act on, `panic` the call panicked, `dead` after a panic
+//!   (cmd: that timer only; core/legacy: the core is not used any more, every later record is `dead`).
 //!   Timer ids are printed as the index of the timer that owns them (`?` if none does).
 use crux_core::{macros::Effect, render::Render, Command, Core, Request};
 use crux_time::command::{Time as TimeCmd, TimerHandle, TimerOutcome};
@@ -408,6 +409,9 @@ fn run_core(case: &Case) -> String {
     let mut has_handle = vec![!legacy; n];
     let mut held: Vec<Held> = (0..n).map(|_| Held::default()).collect();
     let mut dead = vec![false; n];
+    // a task panicked inside a core call: the core is not used any more (QueuingExecutor::run_all can spin forever
+    // when a stale waker wakes the slot the panicked task left empty); the rest of the case prints `dead`
+    let mut core_dead = false;
     let mut out = vec![];
     if !legacy {
         let effects = core.process_event(Event::Init(case.kinds.clone()));
@@ -417,6 +421,10 @@ fn run_core(case: &Case) -> String {
     }
     let flush = [('t', 0usize)];
     for &(a, i) in case.actions.iter().chain(flush.iter()) {
+        if core_dead {
+            out.push("dead".into());
+            continue;
+        }
         let mut rec: Vec<String> = vec![];
         // what to do: an event for the core, a resolve through the core, or something outside the core
         enum Do {
@@ -470,8 +478,9 @@ fn run_core(case: &Case) -> String {
         let mut effects = match r {
             Err(_) => {
                 dead[i] = true;
-                rec.push("panic".into());
-                vec![]
+                core_dead = true;
+                out.push("panic".into());
+                continue;
             }
             Ok((res, effects)) => {
                 rec.push(if was_dead { "dead" } else { res }.into());
